@@ -2,6 +2,7 @@ import TnVerif.Props.C02
 import TnVerif.Props.C03
 import TnVerif.Generated
 import TnVerif.Lemmas.Einsum
+import TnVerif.Model.BatchScalar
 /-!
 # C18 — batch tensors behave as independent stacks of ordinary tensors
 
@@ -242,5 +243,196 @@ theorem pairs_complete : Generated.batchPairs.map (fun t => (t.2.1, t.2.2)) = pa
 theorem unpaired_from_source :
     Generated.batchUnpaired = [("round.truncated_svd", "batched", "bij,bj->bij")] := by
   decide
+
+/-! ## Scalar operations on batch tensors (`Model/BatchScalar.lean`)
+
+`bt * c`, `c * bt`, `bt / c`, `-bt`, `bt + c`, `c + bt`, `bt - c`, `c - bt` for a number `c` and a batch tensor `bt`
+(tensor.py:449-476, 668-699, 799-805).  Element `b` of the result IS (structurally: same cores, same factors) the
+non-batch operation on element `b`; the batch size is unchanged; hence the dense entries are `c * entry`, `entry + c`. -/
+
+/-- **`bt * c`, no mixing**: batch element `b` of `bt * c` is `bt[b] * c` — the same cores: every core of element `b`
+    times the common root `ρ = |c|^(1/N)`, its first core times `sign c` -/
+theorem elem_smul (ρ sgn : R) (x : BTensor R) (b : Nat) (hx : b < x.length) :
+    (smulB ρ sgn x)[b]? = some ((x[b]'hx).scalarMul ρ sgn) := by
+  simp [smulB, hx]
+
+/-- **`bt * c`, no dropping**: the result has as many batch elements as `bt` -/
+theorem smulB_length (ρ sgn : R) (x : BTensor R) : (smulB ρ sgn x).length = x.length := by
+  simp [smulB]
+
+/-- the constant batch tensor that `bt + c` builds has the batch size of `bt` (`self.shape[0]`), every element being the
+    non-batch constant tensor of `t + c` -/
+theorem elem_constB (c : R) (B : Nat) (shape : List Nat) (b : Nat) (hb : b < B) :
+    (constB c B shape)[b]? = some (Tensor.constLike c shape) := by
+  simp [constB, hb]
+
+/-- `bt + c` is the batch sum (`addB`) of `bt` and that constant batch tensor -/
+theorem saddB_eq_addB (c : R) (x : BTensor R) : saddB c x = addB x (constB c x.length (batchShape x)) := rfl
+
+/-- **`bt + c`, no mixing**: batch element `b` of `bt + c` is `bt[b] + c` (same cores and factors), provided element `b`
+    has the batch's shape (all elements of a batch tensor do: the stacked cores have one shape) -/
+theorem elem_sadd (c : R) (x : BTensor R) (b : Nat) (hx : b < x.length) (hs : (x[b]'hx).shape = batchShape x) :
+    (saddB c x)[b]? = some ((x[b]'hx).scalarAdd c) := by
+  simp [saddB, constB, hx, Tensor.scalarAdd, hs]
+
+/-- **`bt + c`, no dropping**: the result has as many batch elements as `bt` (whatever the elements are) -/
+theorem saddB_length (c : R) (x : BTensor R) : (saddB c x).length = x.length := by
+  simp [saddB, constB]
+
+/-- every entry of every batch element of `bt * c` is `c` times that entry of that element, under the contract of
+    `C02.scalarMul_dense` on the root the kernel delivers: `sgn * ρ^N = c`, `N` the number of non-batch modes -/
+theorem smulB_dense (ρ sgn c : R) (x : BTensor R) (b : Nat) (hx : b < x.length) (hw : (x[b]'hx).WF)
+    (hc : sgn * ρ ^ (x[b]'hx).length = c) (idx : List Nat) (hi : idx.length = (x[b]'hx).length) :
+    ∃ r, (smulB ρ sgn x)[b]? = some r ∧ r.dense idx = c * (x[b]'hx).dense idx :=
+  ⟨_, elem_smul ρ sgn x b hx, C02.scalarMul_dense ρ sgn c _ hw hc idx hi⟩
+
+/-- every entry of every batch element of `bt + c` is that entry of that element plus `c` -/
+theorem saddB_dense (c : R) (x : BTensor R) (b : Nat) (hx : b < x.length) (hw : (x[b]'hx).WF)
+    (hs : (x[b]'hx).shape = batchShape x) (idx : List Nat) (hi : idx.length = (x[b]'hx).length) :
+    ∃ r, (saddB c x)[b]? = some r ∧ r.dense idx = (x[b]'hx).dense idx + c :=
+  ⟨_, elem_sadd c x b hx hs, C02.scalarAdd_dense c _ hw idx hi⟩
+
+/-- a well-formed batch tensor: every element is a well-formed tensor of the batch's shape -/
+def BatchWF (x : BTensor R) : Prop := ∀ t ∈ x, t.WF ∧ t.shape = batchShape x
+
+/-- the result of `bt * c` is again a well-formed batch tensor, of the same shape -/
+theorem smulB_wf (ρ sgn : R) (x : BTensor R) (h : BatchWF x) :
+    BatchWF (smulB ρ sgn x) ∧ batchShape (smulB ρ sgn x) = batchShape x := by
+  have hsh : batchShape (smulB ρ sgn x) = batchShape x := by
+    cases x with
+    | nil => rfl
+    | cons t ts => simp [smulB, batchShape, (C02.scalarMul_wf_shape ρ sgn t (h t (by simp)).1).2]
+  refine ⟨?_, hsh⟩
+  intro t ht
+  simp only [smulB, List.mem_map] at ht
+  obtain ⟨u, hu, rfl⟩ := ht
+  obtain ⟨w, s⟩ := C02.scalarMul_wf_shape ρ sgn u (h u hu).1
+  exact ⟨w, by rw [s, hsh, (h u hu).2]⟩
+
+/-- the result of `bt + c` is again a well-formed batch tensor, of the same shape -/
+theorem saddB_wf (c : R) (x : BTensor R) (h : BatchWF x) :
+    BatchWF (saddB c x) ∧ batchShape (saddB c x) = batchShape x := by
+  have key : saddB c x = x.map (Tensor.scalarAdd c) := by
+    apply List.ext_getElem?
+    intro b
+    by_cases hb : b < x.length
+    · rw [elem_sadd c x b hb (h _ (List.getElem_mem hb)).2]; simp [hb]
+    · have h1 : (saddB c x).length ≤ b := by rw [saddB_length]; omega
+      have h2 : (x.map (Tensor.scalarAdd c)).length ≤ b := by simp; omega
+      rw [List.getElem?_eq_none h1, List.getElem?_eq_none h2]
+  have hsh : batchShape (saddB c x) = batchShape x := by
+    rw [key]
+    cases x with
+    | nil => rfl
+    | cons t ts => simp [batchShape, (C02.scalarAdd_wf_shape c t (h t (by simp)).1).2]
+  refine ⟨?_, hsh⟩
+  intro t ht
+  rw [key] at ht
+  simp only [List.mem_map] at ht
+  obtain ⟨u, hu, rfl⟩ := ht
+  obtain ⟨w, s⟩ := C02.scalarAdd_wf_shape c u (h u hu).1
+  exact ⟨w, by rw [s, hsh, (h u hu).2]⟩
+
+section ring
+variable {S : Type} [CommRing S]
+
+/-- **`-bt`**: batch element `b` of `-bt` is `-(bt[b])` (the same cores: first core negated) -/
+theorem elem_neg (x : BTensor S) (b : Nat) (hx : b < x.length) : (negB x)[b]? = some (x[b]'hx).neg := by
+  simp [negB, smulB, hx, Tensor.neg]
+
+theorem negB_length (x : BTensor S) : (negB x).length = x.length := smulB_length 1 (-1) x
+
+/-- every entry of every batch element of `-bt` is minus that entry -/
+theorem negB_dense (x : BTensor S) (b : Nat) (hx : b < x.length) (hw : (x[b]'hx).WF) (idx : List Nat)
+    (hi : idx.length = (x[b]'hx).length) : ∃ r, (negB x)[b]? = some r ∧ r.dense idx = - (x[b]'hx).dense idx :=
+  ⟨_, elem_neg x b hx, C02.neg_dense _ hw idx hi⟩
+
+/-- **`bt - c`** (scalar `c`): every entry of batch element `b` is that entry of `bt[b]` minus `c` -/
+theorem ssubB_dense (c : S) (x : BTensor S) (b : Nat) (hx : b < x.length) (hw : (x[b]'hx).WF)
+    (hs : (x[b]'hx).shape = batchShape x) (idx : List Nat) (hi : idx.length = (x[b]'hx).length) :
+    ∃ r, (ssubB c x)[b]? = some r ∧ r.dense idx = (x[b]'hx).dense idx - c := by
+  obtain ⟨r, h1, h2⟩ := saddB_dense (-1 * c) x b hx hw hs idx hi
+  exact ⟨r, h1, by rw [h2]; ring⟩
+
+/-- **`c - bt`** (scalar `c`): every entry of batch element `b` is `c` minus that entry of `bt[b]` -/
+theorem rsubB_dense (c : S) (x : BTensor S) (b : Nat) (hx : b < x.length) (hw : (x[b]'hx).WF)
+    (hs : (x[b]'hx).shape = batchShape x) (idx : List Nat) (hi : idx.length = (x[b]'hx).length) :
+    ∃ r, (rsubB c x)[b]? = some r ∧ r.dense idx = c - (x[b]'hx).dense idx := by
+  have hx' : b < (smulB 1 (-1) x).length := by rw [smulB_length]; exact hx
+  have he : (smulB 1 (-1) x)[b]'hx' = (x[b]'hx).scalarMul 1 (-1) := by
+    have := elem_smul (1 : S) (-1) x b hx
+    rw [List.getElem?_eq_getElem hx'] at this
+    exact Option.some.inj this
+  obtain ⟨w, s⟩ := C02.scalarMul_wf_shape (1 : S) (-1) _ hw
+  have hsh : batchShape (smulB (1 : S) (-1) x) = batchShape x := by
+    cases x with
+    | nil => rfl
+    | cons t ts =>
+      cases b with
+      | zero => simpa [smulB, batchShape] using s
+      | succ k =>
+        -- the batch's shape is the first element's, which `hs` relates to element `k+1`; scaling keeps every shape
+        simp only [smulB, batchShape, List.map_cons]
+        exact shape_scalarMul _ _ t
+  have hl : ((x[b]'hx).scalarMul 1 (-1)).length = (x[b]'hx).length := by
+    simpa [shape_length] using congrArg List.length s
+  obtain ⟨r, h1, h2⟩ := saddB_dense c (smulB 1 (-1) x) b hx' (by rw [he]; exact w)
+    (by rw [he, s, hsh]; exact hs) idx (by rw [he, hl]; exact hi)
+  refine ⟨r, h1, ?_⟩
+  rw [h2, he, C02.scalarMul_dense 1 (-1) (-1) _ hw (by simp) idx hi]; ring
+
+end ring
+
+/-! ### non-vacuity: a batch of two mixed-format elements (Tucker-TT core then CP factor), scalars 0, -4, 7 -/
+section nonvacuousScalar
+
+/-- a batch of size 2: both elements have a TT core with a factor, then a CP factor; entries differ -/
+def exB : BTensor Int :=
+  [ C02.exT,
+    [ { core := .tt 1 3 2 (fun _ j b => (j : Int) * 2 - b), U := some { rows := 2, cols := 3, f := fun i j => (i : Int) + j } },
+      { core := .cp 2 2 (fun j k => (j : Int) - k), U := none } ] ]
+
+example : BatchWF exB := by
+  intro t ht
+  simp only [exB, List.mem_cons, List.not_mem_nil, or_false] at ht
+  rcases ht with rfl | rfl <;>
+    simp [exB, C02.exT, batchShape, Tensor.WF, Tensor.WFfrom, TMode.ok, Core.rl, Core.rr, Core.spatial, Tensor.shape, TMode.n]
+
+/-- **the scalar 0** (`np.abs(0) ** (1/N) = 0`, `np.sign(0) = 0`: ρ = 0, sgn = 0): every element of `bt * 0` has all
+    entries `0 * entry` -/
+example : ∃ r, (smulB 0 0 exB)[1]? = some r ∧ r.dense [1, 0] = 0 * (exB[1]).dense [1, 0] :=
+  smulB_dense 0 0 0 exB 1 (by simp [exB])
+    (by simp [exB, Tensor.WF, Tensor.WFfrom, TMode.ok, Core.rl, Core.rr, Core.spatial])
+    (by simp [exB]) [1, 0] (by simp [exB])
+
+/-- a negative scalar with an exact square root: `c = -4`, `N = 2`, `ρ = 2`, `sgn = -1` -/
+example : ∃ r, (smulB 2 (-1) exB)[0]? = some r ∧ r.dense [1, 1] = (-4) * (exB[0]).dense [1, 1] :=
+  smulB_dense 2 (-1) (-4) exB 0 (by simp [exB])
+    (by simp [exB, C02.exT, Tensor.WF, Tensor.WFfrom, TMode.ok, Core.rl, Core.rr, Core.spatial])
+    (by simp [exB, C02.exT]) [1, 1] (by simp [exB, C02.exT])
+
+/-- `bt + 0` and `bt + 7` on the second element -/
+example : ∃ r, (saddB 0 exB)[1]? = some r ∧ r.dense [1, 0] = (exB[1]).dense [1, 0] + 0 :=
+  saddB_dense 0 exB 1 (by simp [exB])
+    (by simp [exB, Tensor.WF, Tensor.WFfrom, TMode.ok, Core.rl, Core.rr, Core.spatial])
+    (by simp [exB, C02.exT, batchShape, Tensor.shape, TMode.n, Core.spatial]) [1, 0] (by simp [exB])
+
+example : ∃ r, (saddB 7 exB)[1]? = some r ∧ r.dense [1, 0] = (exB[1]).dense [1, 0] + 7 :=
+  saddB_dense 7 exB 1 (by simp [exB])
+    (by simp [exB, Tensor.WF, Tensor.WFfrom, TMode.ok, Core.rl, Core.rr, Core.spatial])
+    (by simp [exB, C02.exT, batchShape, Tensor.shape, TMode.n, Core.spatial]) [1, 0] (by simp [exB])
+
+/-- the hypotheses of `elem_smul` / `elem_sadd` / `elem_neg` on `exB` -/
+example : (smulB 0 0 exB)[1]? = some ((exB[1]).scalarMul 0 0) ∧ (saddB 3 exB)[1]? = some ((exB[1]).scalarAdd 3) ∧
+    (negB exB)[1]? = some (exB[1]).neg :=
+  ⟨elem_smul 0 0 exB 1 (by simp [exB]),
+   elem_sadd 3 exB 1 (by simp [exB]) (by simp [exB, C02.exT, batchShape, Tensor.shape, TMode.n, Core.spatial]),
+   elem_neg exB 1 (by simp [exB])⟩
+
+/-- … and the values: the model run on `exB` (`bt * 0` is zero, `bt + 7`, `7 - bt`) -/
+example : ((smulB 0 0 exB).map (·.dense [1, 0]), (saddB 7 exB).map (·.dense [1, 0]), (rsubB 7 exB).map (·.dense [1, 0]),
+    exB.map (·.dense [1, 0])) = ([0, 0], [5, -3], [9, 17], [-2, -10]) := by decide
+
+end nonvacuousScalar
 
 end TN.C18
